@@ -4,6 +4,7 @@ and keep it under /verif/seeded/<id>/.   usage: tools_seed.py <worktree> <A|B> <
 import json, os, re, shutil, subprocess, sys
 
 wt, which, sid, prop = sys.argv[1:5]
+REFACTOR = len(sys.argv) > 5 and sys.argv[5] == "refactor"      # a change that keeps the property
 src = os.path.join(wt, "out", which)
 PY = "/venv/bin/python"
 
@@ -36,7 +37,8 @@ try:
                                          capture_output=True, text=True).stdout.strip()
 finally:
     sh("git checkout -- discopy")
-ok = ran["demo_clean_exit"] == 0 and ran["demo_patched_exit"] != 0 and ran["suite_patched"] == (10, 219)
+ok = ran["demo_clean_exit"] == 0 and ran["suite_patched"] == (10, 219) and (
+    ran["demo_patched_exit"] == 0 if REFACTOR else ran["demo_patched_exit"] != 0)
 print(json.dumps(ran), "CONFIRMED" if ok else "NOT CONFIRMED")
 if not ok:
     sys.exit(1)
@@ -48,8 +50,9 @@ for f in os.listdir(src):
 notes = open(os.path.join(src, "notes.md")).read() if os.path.exists(os.path.join(src, "notes.md")) else ""
 meta = {"property": prop, "what": " ".join(notes.split())[:400],
         "needs": "see notes.md", "origin": "independent sub-agent given only the property text and a scratch worktree",
-        "confirmed": ran,
-        "ran": "demo.py exits 0 on the clean worktree and non-zero with patch.diff applied; the repository's "
-               "suite with the patch: 10 failed, 219 passed (the baseline's 10)"}
+        "confirmed": ran, "expect": "clean" if REFACTOR else "violation",
+        "ran": ("demo.py (shows the behavioural difference) exits 0 on both trees; " if REFACTOR else
+                "demo.py exits 0 on the clean worktree and non-zero with patch.diff applied; ") +
+               "the repository's suite with the patch: 10 failed, 219 passed (the baseline's 10)"}
 json.dump(meta, open(os.path.join(dst, "meta.json"), "w"), indent=1)
 print("kept as", dst)
